@@ -1274,6 +1274,7 @@ DLLIMPORT cfg_value_t *cfg_setopt(cfg_t *cfg, cfg_opt_t *opt, const char *value)
 DLLIMPORT int cfg_opt_setmulti(cfg_t *cfg, cfg_opt_t *opt, unsigned int nvalues, char **values)
 {
 	cfg_opt_t old;
+	cfg_value_t simple;
 	unsigned int i;
 
 	if (!opt || !nvalues) {
@@ -1287,11 +1288,53 @@ DLLIMPORT int cfg_opt_setmulti(cfg_t *cfg, cfg_opt_t *opt, unsigned int nvalues,
 	/* the annotation is not a value: keep it out of cfg_free_value()'s reach */
 	opt->comment = NULL;
 
+	/* the value of a CFG_SIMPLE_* option is the caller's variable: set what
+	 * it holds aside as well (a string is detached, so that it survives) */
+	memset(&simple, 0, sizeof(simple));
+	if (opt->simple_value.ptr) {
+		switch (opt->type) {
+		case CFGT_INT:
+			simple.number = *opt->simple_value.number;
+			break;
+		case CFGT_FLOAT:
+			simple.fpnumber = *opt->simple_value.fpnumber;
+			break;
+		case CFGT_BOOL:
+			simple.boolean = *opt->simple_value.boolean;
+			break;
+		case CFGT_STR:
+			simple.string = *opt->simple_value.string;
+			*opt->simple_value.string = NULL;
+			break;
+		default:
+			break;
+		}
+	}
+
 	for (i = 0; i < nvalues; i++) {
 		if (cfg_setopt(cfg, opt, values[i]))
 			continue;
 
 		/* ouch, revert */
+		if (opt->simple_value.ptr) {
+			switch (opt->type) {
+			case CFGT_INT:
+				*opt->simple_value.number = simple.number;
+				break;
+			case CFGT_FLOAT:
+				*opt->simple_value.fpnumber = simple.fpnumber;
+				break;
+			case CFGT_BOOL:
+				*opt->simple_value.boolean = simple.boolean;
+				break;
+			case CFGT_STR:
+				free(*opt->simple_value.string);
+				*opt->simple_value.string = simple.string;
+				break;
+			default:
+				break;
+			}
+		}
 		cfg_free_value(opt);
 		opt->nvalues = old.nvalues;
 		opt->values = old.values;
@@ -1305,6 +1348,8 @@ DLLIMPORT int cfg_opt_setmulti(cfg_t *cfg, cfg_opt_t *opt, unsigned int nvalues,
 	opt->comment = old.comment;
 	old.comment = NULL;
 	cfg_free_value(&old);
+	if (opt->simple_value.ptr && opt->type == CFGT_STR)
+		free(simple.string);
 	opt->flags |= CFGF_MODIFIED;
 
 	return CFG_SUCCESS;
